@@ -41,7 +41,7 @@ def run(tier):
         conds.append(Cond(path, 'fail__%d' % i, 'inapplicable/%s' % '_'.join(lines[0].split()[1:]), dict(check='inapplicable patch rule fails the compilation', patch=lines, symbolic='N'), sample_args=[3]))
     for i, d in enumerate(FH.DIMS):
         body.append('def dim__%d(n: int, m: int) -> bool:\n    """\n    pre: 1 <= n <= 1000 and 1 <= m <= 8\n    post: _\n    """\n    return FH.dimension_forms(%d, n, m)\n\n' % (i, i))
-        conds.append(Cond(path, 'dim__%d' % i, 'dimension/%s' % '+'.join(sorted(d[0])), dict(check='<dimension> form -> member form and numeric size', attrs=d[0], symbolic='N, M'), sample_args=[3, 2]))
+        conds.append(Cond(path, 'dim__%d' % i, 'dimension/%d-%s/%s' % (i, 'message' if d[1] else 'struct', '+'.join(sorted(d[0]))), dict(check='<dimension> form -> member form and numeric size', attrs=d[0], symbolic='N, M'), sample_args=[3, 2]))
     body.append('def neg__0(sel: int) -> bool:\n    """\n    pre: 0 <= sel <= 7\n    post: _\n    """\n    return FH.negative_enum_value(sel)\n\n')
     conds.append(Cond(path, 'neg__0', 'negative-enumerator', dict(check='negative enumerator -> unsigned 32-bit image', symbolic='selector over concrete values -1, -2, -2^31, -5 (string formatting)'), sample_args=[0]))
     with open(path, 'w') as f:
